@@ -1739,6 +1739,15 @@ def check_messages(rep, g):
             continue
         chk = checks[i] if i < len(checks) else {'kind': 'unknown'}
         if chk['kind'] != 'cmp':
+            # a guard that orders floats through `total_cmp` is a *different relation* from the one any of the messages
+            # states (read literally: the comparison operators): -0.0 < +0.0 and NaN is ordered in the IEEE total order
+            tc = [cpath(ex, t) for t in walk(chk.get('term', ())) if t[0] == 'call' and cpath(ex, t).endswith('::total_cmp')] \
+                if d['family'] == 'float' and chk.get('term') else []
+            if tc:
+                rep.ob('R-MSG', False, g,
+                       f'{what}: the validator orders values by the IEEE total order (`{tc[0]}`), the stated constraint reads as the comparison '
+                       f'operator: they differ on -0.0 / +0.0 and NaN', {'text': text, 'check': show(chk['term'])[:200]})
+                continue
             rep.ob('R-MSG', None, g, f'{what}: the check for this variant was not recognised, nothing to compare with', {})
             continue
         # the bound: an argument whose value is the very bound term of the check
